@@ -29,19 +29,10 @@ def _ans_none():
     return {"t": "none"}
 
 
-class RoleBonds(frozenset):
-    """a set of bonds returned by get_formed_bonds / get_broken_bonds / get_fleeting_bonds"""
-
-
 def norm_answer(name, val, idm: IdMap):
     """normalise a real return value into the spec's answer shape."""
     if val is None:
         return {"t": "none"}
-    if isinstance(val, RoleBonds):      # the spec's BondCode: 100 * lower + higher model identifier
-        try:
-            return {"t": "ids", "s": sorted(100 * min(idm.b(x) for x in bb) + max(idm.b(x) for x in bb) for bb in val)}
-        except TypeError:
-            return {"t": "other", "repr": repr(sorted(map(sorted, val)))[:80]}
     if isinstance(val, bool):
         return {"t": "bool", "b": val}
     if name in ("get_atom_type",):
@@ -232,7 +223,10 @@ def apply(g, op, idm: IdMap, other=None, swap=False, iter_kind="list"):
             is_query, val = True, len(g.connected_components())
         elif n == "role_bonds":
             fn = {"formed": g.get_formed_bonds, "broken": g.get_broken_bonds, "fleeting": g.get_fleeting_bonds}[op["ch"]]
-            is_query, val = True, RoleBonds(frozenset(frozenset(bb) for bb in fn()))
+            bs = [tuple(bb) for bb in fn()]
+            if any(len(set(bb)) != 2 for bb in bs):
+                raise AssertionError("a role-bond getter returned something that is not a pair of atoms")
+            is_query, val = True, (len(set(map(frozenset, bs))) if op["flag"] else frozenset(x for bb in bs for x in bb))
         elif n == "active_atoms":
             is_query, val = True, frozenset(g.active_atoms(additional_layer=1 if op["flag"] else 0))
         elif n == "get_atom_stereo":
